@@ -326,6 +326,10 @@ def run_trigger(case):
             if has_x(case["kind"]):
                 ev["resetX"] = bool(int(g.curr_omega_idx) == 0)
             events.append(ev)
+        elif op[0] == "reinit":
+            # what a second `jinns.solve` does with the generator a first one returned: `init_rar` again, then
+            # triggers whose iteration number restarts at 0.  The refinement state lives in the generator.
+            g, st, sf = init_rar(g)
         else:
             _, i, a = op
             af = Fraction(a)
